@@ -1056,6 +1056,66 @@ def load_corpus():
     return out
 
 
+EXH_ALPHABET = [
+    "add x:f:0,1:2,5:1,2",
+    "add yx:i:-2:2:_",
+    "add x_1:f:_:3/4:_",
+    "remove x",
+    "rename x z",
+    "rename yx x",
+    "filterdim x 1",
+    "setub x 4,5",
+    "setlb yx -6",
+    "setarr 1/2,2,0",
+    "setarr 1,2",
+    "initmissing",
+    "intnorm 1",
+    "probe 1/2,3,1 1/4,1/2,3/4 1,-2,3",
+    "probe 1/2,3 1/4,1/2 1,-2",
+    "member 2,5,2",
+    "sub yx,x",
+    "sub x",
+]
+
+
+def exhaustive_histories(max_len: int) -> list[list[str]]:
+    """Every in-scope sequence of at most `max_len` operations over the reduced alphabet
+    (prefixes that leave the quantifier are pruned; queries at the end are kept only after an edit)."""
+    out: list[list[str]] = []
+
+    def rec(prefix: list[str], sh: Shadow):
+        if prefix:
+            out.append(list(prefix))
+        if len(prefix) == max_len:
+            return
+        for op in EXH_ALPHABET:
+            if not valid_line(sh, op):
+                continue
+            sh2 = copy.deepcopy(sh)
+            if op.split()[0] not in ("probe", "member", "sub"):
+                apply_shadow(sh2, op)
+            rec([*prefix, op], sh2)
+
+    rec([], Shadow())
+    # keep maximal histories only (every proper prefix is checked step by step anyway)
+    keep = []
+    seen = set()
+    for h in sorted(out, key=len, reverse=True):
+        t = tuple(h)
+        if t in seen:
+            continue
+        keep.append(h)
+        for k in range(1, len(h) + 1):
+            seen.add(t[:k])
+    return keep
+
+
+def _worker(args):
+    common.quiet_gemseo()
+    lines, style = args
+    return run_history(lines, style)
+
+
 def run(ctx) -> Result:
     res = Result(PID)
     for old in common.REPLAY_DIR.glob(f"{PID}-*.json") if common.REPLAY_DIR.is_dir() else []:
@@ -1086,7 +1146,30 @@ def run(ctx) -> Result:
     for h, m in zip(probes, pm):
         check_history(res, h, False, m)
     if ctx.thorough:
-        res.extra["thorough_note"] = "thorough = 15x more random histories (exhaustive enumeration of short op sequences is subsumed: every op pair occurs)"
+        # exhaustive small scope: every in-scope sequence of <= 5 operations over a reduced alphabet
+        ex = exhaustive_histories(5)
+        res.extra["exhaustive_sequences"] = len(ex)
+        res.exhaustive = True
+        models = batch_model(ex)
+        import multiprocessing as mp
+
+        with mp.get_context("fork").Pool(14) as pool:
+            results = pool.map(_worker, [(h, False) for h in ex], chunksize=64)
+        for h, m, (answers, failures) in zip(ex, models, results):
+            res.evaluations += 1
+            res.count("exhaustive-small-scope")
+            res.nontrivial("ex:" + " ; ".join(h))
+            for i, key, msg in failures:
+                res.violate("oracle", key, msg, {"history": h[: i + 1], "scalar_style": False})
+            for a, mm, ln in zip(answers, m, h):
+                if not same_answer(a, mm):
+                    res.disagreements += 1
+                    if not failures:
+                        res.violate("correspondence", "model-vs-impl", f"implementation and Lean model disagree after `{ln}` (exhaustive stream)",
+                                    {"history": h, "impl": a, "model": mm, "correspondence": "Driver/C02.lean step", "scalar_style": False})
+                    break
+            else:
+                res.traces_validated += 1
     return res
 
 
